@@ -49,7 +49,7 @@ PROBES = {
     'C01': ['cell_occupied_in_one_array_only', 'particle_on_cell_face', 'degenerate_extent', 'cross_array_pair',
             'cache_lazy_fill', 'cache_fill_simulated_tid', 'cache_find_all_threads_gt1', 'implicit_context_switch', 'reorder_then_query',
             'empty_array_present', 'coincident_points', 'far_from_origin', 'h_decades', 'refused_too_many_cells',
-            'band_pairs', 'added_particles', 'removed_particles', 'cache_toggled'],
+            'band_pairs', 'added_particles', 'removed_particles', 'cache_toggled', 'cached_and_uncached_queries_share_output_array'],
     'C17': ['reorder_with_nonlocal_tags', 'reorder_strided', 'repeated_reorder', 'reorder_then_query', 'reorder_empty_array',
             'solver_reorder_then_query_without_update', 'periodic_domain', 'reorder_with_domain_ghosts'],
 }
@@ -179,7 +179,7 @@ def gen(t, prop, tier):
         elif k == 'remove':
             op['idx'] = [t.int(0, 200) for _ in range(t.int(1, 10))]
         ops.append(op)
-    qmodes = [dict(mode=t.wchoice([('cached', 5), ('nocache', 2), ('find_all', 3)]),
+    qmodes = [dict(mode=t.wchoice([('cached', 5), ('nocache', 2), ('find_all', 3), ('mixed', 2)]),
                    ctx=t.wchoice([('explicit', 3), ('implicit', 2)]), order_seed=t.int(0, 1 << 20), sim_tids=int(t.bool(0.5)))
               for _ in range(len(ops) + 1)]
     sc = dict(dim=dim, cls=cls, knobs=knobs, cache=int(t.bool(0.6)) if cls != 'dbox' else 0, sort_gids=int(t.bool(0.4)), fixed_h=fixed_h,
@@ -279,7 +279,8 @@ class W(object):
 def _ident_cols(ids):
     ids = np.asarray(ids, dtype=np.int64)
     return dict(ident=ids, fv=np.repeat(ids, 3).astype(np.float32) + np.tile(np.arange(3, dtype=np.float32), len(ids)),
-                iv=(-3 * ids).astype(np.int32), m9=(np.repeat(ids, 9) * 10.0 + np.tile(np.arange(9.0), len(ids))))
+                iv=(-3 * ids).astype(np.int32), m9=(np.repeat(ids, 9) * 10.0 + np.tile(np.arange(9.0), len(ids))),
+                nz=np.where(ids % 3 == 0, -0.0, 0.0), nn=np.where(ids % 4 == 1, np.nan, 1.0).astype(np.float32))
 
 
 def _build_array(w, name, rows, dim, valid_gids, with_ident):
@@ -302,6 +303,9 @@ def _build_array(w, name, rows, dim, valid_gids, with_ident):
         pa.add_property('fv', type='float', stride=3, data=cols['fv'] if n else None)
         pa.add_property('iv', type='int', data=cols['iv'] if n else None)
         pa.add_property('m9', type='double', stride=9, data=cols['m9'] if n else None)
+        # properties that are uniform up to the sign of zero / up to NaN entries
+        pa.add_property('nz', type='double', data=cols['nz'] if n else None)
+        pa.add_property('nn', type='float', data=cols['nn'] if n else None)
         # the constructor aligned by tag before ident was attached: identities
         # are attached in storage order, which is all that matters
     if valid_gids and n:
@@ -360,7 +364,9 @@ def _records(pa):
         r = []
         for p in sorted(cols):
             s = len(cols[p]) // n
-            r.append((p, tuple(cols[p][i * s:(i + 1) * s].tolist())))
+            v = cols[p][i * s:(i + 1) * s]
+            # bit patterns, so that NaN equals NaN and -0.0 differs from 0.0
+            r.append((p, tuple(v.tolist()) if v.dtype.kind in 'iu' else v.tobytes()))
         recs.append(tuple(r))
     return recs
 
@@ -507,9 +513,14 @@ def execute(sc, prop):
                     probe('cache_find_all_threads_gt1')
             order = list(range(nd))
             rng.shuffle(order)
+            if mode == 'mixed':
+                order = order + order       # every destination is asked again after the cache has been filled
             sim_tids = bool(qm.get('sim_tids')) and use_cache[0] and mode == 'cached' and nthreads > 1
             for i in order:
-                if mode == 'nocache' or not use_cache[0]:
+                if mode == 'nocache' or not use_cache[0] or (mode == 'mixed' and rng.randint(3) == 0):
+                    # (in mixed mode the same output array serves cached and uncached queries in turn)
+                    if mode == 'mixed':
+                        probe('cached_and_uncached_queries_share_output_array')
                     nnps.get_nearest_particles_no_cache(s, d, i, nb, False)
                 else:
                     if mode == 'cached':
@@ -624,7 +635,7 @@ def execute(sc, prop):
             cols = _ident_cols(ids)
             kw = dict(x=np.array([r[0] for r in rows]), y=np.array([r[1] if dim > 1 else 0.0 for r in rows]),
                       z=np.array([r[2] if dim > 2 else 0.0 for r in rows]), h=np.array([r[3] for r in rows]),
-                      ident=cols['ident'], fv=cols['fv'], iv=cols['iv'], m9=cols['m9'])
+                      ident=cols['ident'], fv=cols['fv'], iv=cols['iv'], m9=cols['m9'], nz=cols['nz'], nn=cols['nn'])
             if valid_gids:
                 kw['gid'] = (ids % (1 << 31)).astype(np.uint32)
             pa.add_particles(**kw)
